@@ -49,7 +49,7 @@ func c12CloseWaitsForBuffer(c *core.Ctx) {
 		if !isS || fieldOf(x.Info(), se.X) != "socket.writeBuffer" {
 			return 0
 		}
-		if K, ge, ok := cmpThreshold(cmp); ok && K == 1 {
+		if ge, ok := lenPositive(cmp); ok {
 			if ge == 0 {
 				return 1
 			}
